@@ -29,7 +29,7 @@ func (c09) Describe() engine.Info {
 			"Oracle: reference RAM model (gate on low nibble A, FF when disabled, writes ignored when disabled, independent banks modulo the bank count, one 8 KiB bank when the header declares none, MBC2 512 half-bytes mirrored with the upper nibble reading 1, ROM-only window FF). Signature as C08." +
 			" DMA transfers from cartridge space run while the history goes on; window writes made while an MBC3 clock register or an unmapped select is selected are performed and must leave RAM untouched; every declared RAM size code 0-5 for MBC1 and MBC3. Environment: CPU parked looping, halted or stopped.",
 		Assumptions:    []string{"MBC3 accesses with a clock register selected belong to C10 and are skipped here", "the low nibble of an MBC2 cell that was never written is not specified"},
-		RequiredProbes: []string{"ram_write_enabled", "ram_write_disabled", "ram_bank_nonzero", "dump_compared", "dma_from_cartridge_space_in_flight", "window_write_while_clock_register_selected"},
+		RequiredProbes: []string{"ram_write_enabled", "ram_write_disabled", "ram_bank_nonzero", "dump_compared", "dma_from_cartridge_space_in_flight", "window_write_while_clock_register_selected", "dump_compared_mid_history"},
 		RealComponents: realComponents, StubComponents: stubComponents,
 	}
 }
